@@ -7,6 +7,7 @@ import (
 	"crypto/ecdh"
 	"encoding/hex"
 	"encoding/json"
+	"fmt"
 	"math/big"
 	"os"
 	"path/filepath"
@@ -89,6 +90,20 @@ func RunRefcheck(t *testing.T, r *verifmc.Run, pp *Params, testdata string) {
 		// The reference executes no circl code and does not depend on the
 		// configuration; the full validation runs under the default configuration.
 		r.Set("reduced", "single-shot vectors only; full reference validation runs under configuration default")
+		// carry the counters of the full validation of this run into this unit's record
+		if out := os.Getenv("VERIF_OUT"); out != "" {
+			var u struct {
+				Counters map[string]int64
+				Extra    map[string]interface{}
+			}
+			f := filepath.Join(out, fmt.Sprintf("%s.%s.default.json", r.Prop, r.Unit))
+			if b, err := os.ReadFile(f); err == nil && json.Unmarshal(b, &u) == nil {
+				r.Set("full_validation_under_default", u.Counters)
+				if v, ok := u.Extra["iterated_vector_not_run"]; ok {
+					r.Set("iterated_vector_not_run", v)
+				}
+			}
+		}
 		r.Rule("reference validation only (reduced outside the default configuration)")
 		return
 	}
